@@ -528,6 +528,49 @@ func checkTramp(tr Tramp, c *vcommon.Ctx) *vcommon.Failure {
 	return nil
 }
 
+// ---------- the tail-iteration backstop is per loop, not per runtime ----------
+
+// checkRepeated runs the same short loop many times in one runtime under a
+// tail-iteration limit that one run of the loop fits with little room: the
+// runs must not add up.
+func checkRepeated(l Loop, c *vcommon.Ctx) *vcommon.Failure {
+	if l.NFun < 1 || len(l.Wraps) < l.NFun || len(l.Calls) < l.NFun || len(l.ArgWork) < l.NFun || l.K < 1 || l.Blocked != "" {
+		return nil
+	}
+	l.Dig = 0
+	n := l.K
+	body := l.source(n)
+	idx := strings.LastIndex(strings.TrimRight(body, "\n"), "\n")
+	defs := body[:idx+1]
+	reps := 12
+	src := defs + fmt.Sprintf("(let ((acc2 0)) (dotimes (r %d) (set! acc2 (+ acc2 (f0 %d 0)))) (list acc2 (f0 %d 0)))\n", reps, n, n)
+	// the limit one run needs: measured, then given a little room
+	need := 0
+	for lim := 1; lim <= 4*n+8; lim++ {
+		cl := cfg("default")
+		cl.MaxTailIter = lim
+		rt := vcommon.NewRuntime(cl)
+		if o := rt.Load(body); !o.IsErr {
+			need = lim
+			break
+		}
+	}
+	if need == 0 {
+		c.Class("skip/single-run-does-not-fit")
+		return nil
+	}
+	c.NonTrivial(src)
+	cl := cfg("default")
+	cl.MaxTailIter = need + 2
+	rt := vcommon.NewRuntime(cl)
+	o := rt.Load(src)
+	want := fmt.Sprintf("'(%d %d)", reps*n, n)
+	if o.IsErr || o.Canon != want {
+		return vcommon.Failf("tail-iterations/accumulate-across-loops", "one run of the loop fits a tail-iteration limit of %d; %d runs in one runtime under a limit of %d end with %s (%s), want %s\n%s", need, reps+1, need+2, outcome(o), o.Msg, want, src)
+	}
+	return nil
+}
+
 func TestCheck(t *testing.T) {
 	vcommon.Main(t, "C02",
 		vcommon.S("programs", 40000, 600000, gen.GenProgram(4, 60, 6), checkProgram),
@@ -535,5 +578,6 @@ func TestCheck(t *testing.T) {
 		vcommon.S("blocked", 4000, 60000, genLoop(true), checkLoop),
 		vcommon.S("trampoline", 3000, 45000, genTramp(), checkTramp),
 		vcommon.S("handler-depth", 2000, 30000, genHLoop(), checkHLoop),
+		vcommon.S("repeated-loops", 2000, 30000, genLoop(false), checkRepeated),
 	)
 }
